@@ -153,25 +153,45 @@ def build_state(st):
 
 # ------------------------------------------------------------------------------------------------ model + oracle
 
+def wire_goal_shape(spec):
+    """Shape spec for the model: rationals; a rectangle carries cos / sin of its orientation (parameters)."""
+    k = spec["k"]
+    if k == "rect":
+        c, s_ = (1.0, 0.0) if spec["o"] == 0 else (math.cos(spec["o"]), math.sin(spec["o"]))
+        return {"k": "rect", "l": rat(spec["l"]), "w": rat(spec["w"]), "c": [rat(spec["c"][0]), rat(spec["c"][1])],
+                "cos": rat(c), "sin": rat(s_)}
+    if k == "circ":
+        return {"k": "circ", "r": rat(spec["r"]), "c": [rat(spec["c"][0]), rat(spec["c"][1])]}
+    if k == "poly":
+        return {"k": "poly", "v": [[rat(x), rat(y)] for x, y in spec["v"]]}
+    return {"k": "group", "s": [wire_goal_shape(x) for x in spec["s"]]}
+
+
 def model_args(goal_obj, goals, st, state_obj):
     import numpy as np
     tau, eps = _tau_eps()
     gs = []
     for g, gobj in zip(goals, goal_obj.state_list):
-        has_pos = "pos" in g
-        in_pos = bool(gobj.position.contains_point(state_obj.position)) if has_pos and "pos" in st else False
-        gs.append({"time": [rat(gobj.time_step.start), rat(gobj.time_step.end)], "hasPos": has_pos, "inPos": in_pos,
+        gs.append({"time": [rat(gobj.time_step.start), rat(gobj.time_step.end)],
+                   "pos": wire_goal_shape(g["pos"]) if "pos" in g else None,
                    "ori": [rat(gobj.orientation.start), rat(gobj.orientation.end)] if "ori" in g else None,
                    "vel": [rat(g["vel"][0]), rat(g["vel"][1])] if "vel" in g else None})
     pm = st["cls"] == "PMState"
     vx = st["vx"] if pm else st["v"]
     vy = st.get("vy")
-    s = {"t": rat(st["t"]), "hasPos": "pos" in st, "ori": None if pm else rat(st["th"]), "vel": rat(vx),
-         "velY": None if vy is None else rat(vy),
-         # the speed parameter is evaluated the way the library does it (numpy 2-norm); the oracle uses exact squares
-         "speed": rat(float(np.linalg.norm(np.array([vx, vy])))) if vy is not None else rat(0),
-         "heading": rat(math.atan2(vy, vx)) if vy is not None else rat(0)}
-    return {"tau": rat(tau), "eps": rat(eps), "goals": gs, "state": s}
+    s = {"t": rat(st["t"]), "pos": [rat(st["pos"][0]), rat(st["pos"][1])] if "pos" in st else None,
+         "ori": None if pm else rat(st["th"]), "vel": rat(vx), "velY": None if vy is None else rat(vy)}
+    hyp, at2 = [], []
+    if vy is not None:
+        # the transcendental functions as finite tables: the values the library could evaluate, for the RIGHT and for plausible
+        # WRONG argument pairs; which pair is looked up is the model's choice (speed = hyp vx vy, heading = at2 vy vx)
+        h = float(np.linalg.norm(np.array([vx, vy])))
+        hyp = [[rat(vx), rat(vy), rat(h)], [rat(vy), rat(vx), rat(h)]]
+        at2 = [[rat(vy), rat(vx), rat(math.atan2(vy, vx))]]
+        for (a, b) in ((vy, h), (vx, vy), (h, vy)):
+            if not any(r_[0] == rat(a) and r_[1] == rat(b) for r_ in at2):
+                at2.append([rat(a), rat(b), rat(math.atan2(a, b))])
+    return {"tau": rat(tau), "eps": rat(eps), "goals": gs, "state": s, "hyp": hyp, "at2": at2}
 
 
 def oracle_one(g, gobj, st):
@@ -247,9 +267,13 @@ def run_case(ctx, case):
         sobj = build_state(st)
         r = call(goal_obj.is_reached, sobj)
         impl = {"ok": bool(r[1])} if r[0] == "ok" else {"err": r[1]}
-        model = ctx.driver.ask("C08", "is_reached", model_args(goal_obj, goals, st, sobj))
         sub = {"kind": "state", "goals": goals, "states": [st]}
-        ctx.compare(sub, impl, model, "GoalRegion.is_reached vs CR.Goal.isReached")
+        pos_amb = "pos" in st and any("pos" in g and geom.point_in_shape(g["pos"], st["pos"])[1] for g in goals)
+        if pos_amb:
+            ctx.tag("corr/position-ambiguous-skipped")     # shapely (floats) vs the exact model within 1e-9 of a boundary
+        else:
+            model = ctx.driver.ask("C08", "is_reached", model_args(goal_obj, goals, st, sobj))
+            ctx.compare(sub, impl, model, "GoalRegion.is_reached vs CR.Goal.isReached")
         # oracle
         res = [oracle_one(g, gobj, st) for g, gobj in zip(goals, goal_obj.state_list)]
         amb = False
